@@ -172,6 +172,7 @@ func (tg *TCPGroup) CloseListener(ln *TCPGroupListener) {
 	}
 	if len(tg.lns) == 0 {
 		close(tg.acceptCh)
+		tg.acceptCh = nil
 		tg.tcpLn.Close()
 		tg.ctl.portManager.Release(tg.realPort)
 		tg.ctl.RemoveGroup(tg.group)
